@@ -225,7 +225,9 @@ class Prog:
                             r = "support::pos_of(&[%s], std::any::type_name::<T>())" % ", ".join("std::any::type_name::<%s>()" % TYPES[i][0] for i in types)
                         else:
                             r = "0"
-                        if consts is not None:
+                        if consts is not None and not consts[2]:
+                            c = "0"
+                        elif consts is not None:
                             c = "[%s].iter().position(|v| *v == N).unwrap()" % ", ".join(const_lit(consts[1], v) for v in consts[2])
                         else:
                             c = "0"
@@ -382,3 +384,148 @@ def build_crate(prog, cache, repo, timeout=900):
     import shutil
     shutil.copy(exe, out)
     return out, ""
+
+
+# ---------------------------------------------------------------------------
+# random programs
+# ---------------------------------------------------------------------------
+FN_POOL = ["alpha", "beta", "r#loop", "r#type", "sort_x2", "sort_x10", "Upper", "z9", "gamma", "delta", "r#fn", "eps"]
+MOD_POOL = ["m", "inner", "r#mod", "grp", "x1", "x10", "Deep", "q"]
+NAMES = ["custom name", "x::y", "alpha", "<T>", "n.1", "ü", "a,b", "01"]
+STRV = ["a", "b c", "x::y", "ü", "1.5", "01", "A", "é~", "q%"]
+
+
+def F(raw, **kw):
+    return dict(k="F", raw=raw, **kw)
+
+
+def rand_opts_decl(rng, p=0.45):
+    if rng.random() > p:
+        return None
+    k = rng.random()
+    if k < 0.3:
+        return dict(ignore=True, attr=True)
+    if k < 0.55:
+        return dict(ignore=True)
+    if k < 0.8:
+        return dict(ignore=False, explicit=True)
+    return dict(sample_count=rng.choice([1, 7, 100]))
+
+
+def rand_args(rng, max_len=5, kinds=None):
+    kind = rng.choice(kinds or list(CONTAINERS))
+    ptype, vk, _ = CONTAINERS[kind]
+    n = rng.randrange(0 if kind in ("arr_i", "arr_str") else 1, max_len + 1)
+    if kind in ("range", "range_incl"):
+        s = rng.choice([0, -2, 5, 100])
+        vals = [s + i for i in range(n)]
+    elif kind == "arr_u8":
+        vals = [rng.choice([0, 1, 9, 10, 255, rng.randrange(256)]) for _ in range(n)]
+    elif vk == "i":
+        vals = [rng.choice([0, 1, -1, 2, 10, 9, 100, -100, 2**63 - 1, -(2**63) + 1, 42]) for _ in range(n)]
+    elif kind == "arr_char":
+        vals = [rng.choice(["a", "Z", "0", "ü", "-"]) for _ in range(n)]
+    else:
+        vals = [rng.choice(STRV) for _ in range(n)]
+    return (kind, vals)
+
+
+def rand_fn(rng, raw, max_args=5):
+    it = F(raw)
+    k = rng.random()
+    if rng.random() < 0.25:
+        it["name"] = rng.choice(NAMES)
+    it["opts"] = rand_opts_decl(rng)
+    if k < 0.35:                        # plain / Bencher / extern
+        it["bencher"] = rng.random() < 0.4
+        it["extern_c"] = rng.random() < 0.15
+    elif k < 0.6:                       # args
+        it["args"] = rand_args(rng, max_args)
+        it["bencher"] = rng.random() < 0.4
+    else:                               # generic
+        shape = rng.random()
+        if shape < 0.35:
+            it["types"] = rng.sample(range(len(TYPES)), rng.randrange(0, 4))
+        elif shape < 0.6:
+            it["consts"] = rand_consts(rng)
+        else:
+            it["types"] = rng.sample(range(len(TYPES)), rng.randrange(0, 3))
+            it["consts"] = rand_consts(rng)
+            it["const_first"] = rng.random() < 0.4
+        it["bencher"] = rng.random() < 0.3
+        if rng.random() < 0.3:
+            it["args"] = rand_args(rng, 3, kinds=["arr_i", "vec_i", "arr_str", "range", "slice_i"])
+            if not it["args"][1]:
+                it["args"] = ("vec_i", [1, 2])
+    return it
+
+
+def rand_consts(rng):
+    cty = rng.choice("iiubc")
+    n = rng.randrange(0, 4)
+    if cty == "i":
+        vals = rng.sample([0, 1, -1, 2, 10, 100, -5, 7], n)
+    elif cty == "u":
+        vals = rng.sample([0, 1, 2, 10, 64, 1000], n)
+    elif cty == "b":
+        vals = rng.sample(["true", "false"], min(n, 2))
+    else:
+        vals = rng.sample(["a", "z", "0", "Q"], n)
+    form = "L" if rng.random() < 0.6 or not vals else "X"
+    return (form, cty, vals)
+
+
+def rand_items(rng, depth, budget):
+    items = []
+    fns = rng.sample(FN_POOL, rng.randrange(1, 5))
+    seen = set()
+    for raw in fns:
+        key = raw.replace("r#", "").upper()
+        if key in seen or budget[0] <= 0:
+            continue
+        seen.add(key)
+        budget[0] -= 1
+        items.append(rand_fn(rng, raw))
+    if depth < 3:
+        for raw in rng.sample(MOD_POOL, rng.randrange(0, 3)):
+            if budget[0] <= 0:
+                break
+            g = None
+            if rng.random() < 0.55:
+                g = dict(name=rng.choice(NAMES) if rng.random() < 0.35 else None, opts=rand_opts_decl(rng, 0.6))
+            sub = rand_items(rng, depth + 1, budget)
+            if sub:
+                items.append(dict(k="M", raw=raw, items=sub, group=g))
+    if rng.random() < 0.3 and budget[0] > 0:
+        budget[0] -= 1
+        items.append(dict(k="N", fname="host_%d" % rng.randrange(10**6), items=[rand_fn(rng, rng.choice(["nested_a", "nested_b", "r#nested"]))]))
+    rng.shuffle(items)
+    return items
+
+
+def rand_program(rng, crate, size=14):
+    return Prog(crate, rand_items(rng, 0, [size]))
+
+
+def feature_tour(crate):
+    """One item of every attribute form named by C12 (fixed)."""
+    M = lambda raw, items, group=None: dict(k="M", raw=raw, items=items, group=group)
+    items = [
+        F("plain"), F("r#loop"), F("named", name="custom name"), F("with_b", bencher=True), F("ext", extern_c=True),
+        F("ign1", opts=dict(ignore=True, attr=True)), F("ign2", opts=dict(ignore=True)), F("sc", opts=dict(sample_count=7)),
+        F("a1", args=("arr_i", [3, 1, 2])), F("a2", args=("arr_str", ["x", "y z"]), bencher=True), F("a_empty", args=("arr_i", [])),
+        F("a3", args=("slice_str", ["p", "q"])), F("a4", args=("vec_string", ["s1", "s2", "s3"])), F("a5", args=("range_incl", [4, 5, 6])),
+        F("a6", args=("ref_arr_i", [7, 8])), F("a7", args=("iter_i", [9])), F("a8", args=("string_by_ref", ["r1"])), F("a9", args=("arr_char", ["c", "d"])),
+        F("ty", types=[0, 6, 8]), F("ty_empty", types=[]),
+        F("cs", consts=("L", "i", [1, 2, 3])), F("cs_empty", consts=("L", "i", [])), F("cs_ext", consts=("X", "u", [4, 5])),
+        F("cs_ext20", consts=("X", "i", list(range(20)))),
+        F("both", types=[1, 7], consts=("L", "i", [10, 20]), const_first=False),
+        F("both2", types=[1, 7], consts=("L", "b", ["true", "false"]), const_first=True, args=("vec_i", [5, 6])),
+        F("ty_none_consts", types=[], consts=("L", "i", [1])), F("consts_none_ty", types=[2], consts=("L", "i", [])),
+        M("m1", [F("inner"), M("m2", [F("deep", args=("range", [0, 1, 2])), M("m3", [F("deeper")])],
+                               group=dict(name="Group Two", opts=dict(ignore=True)))]),
+        M("g", [F("x"), F("nf", opts=dict(ignore=False, explicit=True))], group=dict(opts=dict(ignore=True, attr=True))),
+        M("r#mod", [F("in_raw_mod")], group=dict(opts=dict(sample_count=3))),
+        dict(k="N", fname="outer_fn", items=[F("nested_in_fn")]),
+    ]
+    return Prog(crate, items)
